@@ -6,7 +6,7 @@
 From DV Require Import Base.Prelude Model.NameM Model.TokM Model.RdTextM.
 From DV Require Import Proofs.NameValid Proofs.NameOrder Proofs.NameText.
 From DV Require Import Proofs.TokEsc Proofs.TokTxt Proofs.TokWords Proofs.TokDec Proofs.TokHex
-     Proofs.TokShape Proofs.TokGeneric Proofs.TokUtf8 Proofs.RdTextName Proofs.RdTextAddr Proofs.RdTextBitmap Proofs.RdTextTypes Proofs.RdTextB32 Proofs.RdTextSig Proofs.RdText Proofs.RdTextRel.
+     Proofs.TokShape Proofs.TokGeneric Proofs.TokUtf8 Proofs.RdTextName Proofs.RdTextAddr Proofs.RdTextBitmap Proofs.RdTextTypes Proofs.RdTextB32 Proofs.RdTextSig Proofs.RdTextEui Proofs.RdText Proofs.RdTextRel.
 Open Scope Z_scope.
 
 (* ------------------------------------------------------------------ character-strings *)
@@ -226,6 +226,24 @@ Example sigtime_examples :
   /\ posixtime_to_sigtime 951782400 = [50;48;48;48;48;50;50;57;48;48;48;48;48;48]        (* 20000229000000 *)
   /\ posixtime_to_sigtime 4294967295 = [50;49;48;54;48;50;48;55;48;54;50;56;49;53]       (* 21060207062815 *)
   /\ sigtime_to_posixtime [50;49;48;54;48;50;48;55;48;54;50;56;49;53] = Ok 4294967295.
+Proof. repeat split; vm_compute; reflexivity. Qed.
+
+(* ------------------------------------------------------------------ EUI48 / EUI64 *)
+
+(* dns/rdtypes/euibase.py: the octets printed as hex pairs joined by "-" (one tokenizer word) are read
+   back - text length, dash positions, dashes removed, unhexlify, octet count - as the same octets;
+   stated for every length n > 0 (the two types use 6 and 8). *)
+Theorem eui_text_roundtrip : forall n b, all_bytes b = true -> length b = n -> (0 < n)%nat ->
+  eui_from_text n (eui_to_text b) = Ok b /\ forallb safe (eui_to_text b) = true /\ eui_to_text b <> [].
+Proof. exact eui_roundtrip. Qed.
+Print Assumptions eui_text_roundtrip.
+
+Example eui_examples :
+  eui_to_text [0; 1; 35; 171; 205; 255] = [48;48;45;48;49;45;50;51;45;97;98;45;99;100;45;102;102]   (* 00-01-23-ab-cd-ff *)
+  /\ eui_from_text 6 [48;48;45;48;49;45;50;51;45;65;66;45;99;100;45;102;102] = Ok [0; 1; 35; 171; 205; 255]
+  /\ eui_from_text 6 [48;48;45;48;49;45;50;51;45;97;98;45;99;100;45;102] = Lib eSyntax
+  /\ eui_from_text 6 [48;48;58;48;49;45;50;51;45;97;98;45;99;100;45;102;102] = Lib eSyntax
+  /\ schema_of 108 = Some [FEui 6] /\ schema_of 109 = Some [FEui 8].
 Proof. repeat split; vm_compute; reflexivity. Qed.
 
 (* ------------------------------------------------------------------ whole records *)
